@@ -36,6 +36,8 @@ def main():
             if not line:
                 return
             l = line.decode('utf-8').rstrip('\n')
+            if l.startswith('w'):
+                time.sleep(2.2)                     # a line that takes longer than the spawn object's default timeout
             o, ok = m.step(l)
             emit(o + (prompt if ok else cont))
         except KeyboardInterrupt:
